@@ -8,9 +8,8 @@ namespace Jwt
 
 /-- the loop `for (i = 0; i < len_max; i++)` with `c = (i < len) ? str[i] : 0` -/
 def strcmpLoop : Bytes → Bytes → Nat → Nat
-  | [], [], acc => acc
+  | [], bs, acc => bs.foldl (fun acc b => acc ||| (0 ^^^ b.toNat)) acc
   | a :: as, [], acc => strcmpLoop as [] (acc ||| (a.toNat ^^^ 0))
-  | [], b :: bs, acc => strcmpLoop [] bs (acc ||| (0 ^^^ b.toNat))
   | a :: as, b :: bs, acc => strcmpLoop as bs (acc ||| (a.toNat ^^^ b.toNat))
 
 /-- `jwt_strcmp(str1, str2)`; callers test the result against zero only -/
